@@ -294,7 +294,7 @@ def search(rng, tier, broken, corr):
             "evaluations": 0, "distinct_nontrivial": 0, "samples": [], "skipped": {}}
     first = {}
     nontrivial = set()
-    mult = 1 if tier == "quick" else 10
+    mult = 2 if tier == "quick" else 30
     if broken:
         mult *= 2
     files, snippets, progs = getattr(corr, "pools", None) or (tw.corpus_programs() + (None,))
